@@ -1,6 +1,6 @@
 (* C10 — message-layer reactions follow the RFC 7252 type rules.
    Only statements here; every proof is [exact <lemma of Proofs/C10.v>] (or a vm_compute witness). *)
-From Verif Require Import Lib.Py Lib.Tactics Model.C10 Proofs.C10 Proofs.C10Acks Proofs.C10Live Proofs.C10Gone.
+From Verif Require Import Lib.Py Lib.Tactics Model.C10 Proofs.C10 Proofs.C10Acks Proofs.C10Live Proofs.C10Gone Proofs.C10R6.
 Open Scope Z_scope.
 
 (* 1. The reaction table: type x code class x token known x received on multicast, for every state reachable-or-not that satisfies
@@ -95,6 +95,28 @@ Proof. split; [apply BInv_init|]. vm_compute. repeat split; repeat constructor. 
       EMPTY_ACK_DELAY" is [now s + EMPTY_ACK_DELAY < now s'].
       Shutdown is outside the model (no event for it; C18) — the theorems speak about histories without Context.shutdown, and without
       transport errors (MessageManager.dispatch_error is not modelled either). *)
+(* third invariant [RI] (Proofs/C10R6.v, along every history from the initial state): an opportunity's (peer, mid) is registered for
+   deduplication; its empty-ACK handle is due strictly before the Forget handle of that registration; at most one pending Forget handle
+   per registered (peer, mid) and none otherwise; one opportunity per (peer, token).  Consequence: a message that is not a duplicate has
+   no opportunity recorded under its (peer, message ID) — the former hypothesis [cnt ... = 0] of the theorems below. *)
+Theorem C10_fresh_no_opportunity : forall es m0 t0 s os p M, run (init m0 t0) es = (s, os) ->
+  aget zz_eqb (recent s) (p, M) = None -> cnt p M (piggy s) = 0%nat.
+Proof. exact fresh_no_opportunity. Qed.
+Print Assumptions C10_fresh_no_opportunity.
+Example C10_RI_nonvacuous :      (* a reachable state with an opportunity, its registration and the two handles 0.1 s / 247 s *)
+  let s := fst (run (init 0 0) [Recv (uni 0) (creq CON 7 [1] 0 None); Wait 5]) in
+  RI s /\ piggy s = [((0, [1]), (7, 1))] /\ map due (atimers s) = [100000] /\ map due (forgets (rtimers s)) = [247000000].
+Proof.
+  split; [|vm_compute; repeat split].
+  destruct (run (init 0 0) [Recv (uni 0) (creq CON 7 [1] 0 None); Wait 5]) as [s os] eqn:E.
+  exact (RI_run _ _ _ _ E (RI_init 0 0) (AInv_init 0 0)).
+Qed.
+(* the model's internal-error output of on_timeout (KeyError) is unreachable: the next empty-ACK handle to fire always has its opportunity *)
+Theorem C10_on_timeout_keyerror_unreachable : forall es m0 t0 s os t, run (init m0 t0) es = (s, os) -> next_timer s = Some (true, t) ->
+  exists r tok pm, kind t = EmptyAck r tok /\ aget pk_eqb (piggy s) (rpeer r, tok) = Some (pm, tid t) /\
+                   forall e, ~ In (LoopException e) (snd (step s Fire)).
+Proof. exact on_timeout_keyerror_unreachable. Qed.
+Print Assumptions C10_on_timeout_keyerror_unreachable.
 Theorem C10_AInv_invariant : forall es m0 t0 s os, run (init m0 t0) es = (s, os) -> AInv s.
 Proof. intros es m0 t0 s os H. eapply AInv_run; [exact H|apply AInv_init]. Qed.
 Print Assumptions C10_AInv_invariant.
@@ -108,7 +130,8 @@ Proof.
 Qed.
 (* for every history [pre] from the initial state and every continuation [post]: a fresh CON request (any request code, any resource,
    whatever its handler does or fails to do) has received at most one ACK-typed message under its message ID at any time, and exactly
-   one as soon as the clock has passed arrival + EMPTY_ACK_DELAY — hence none afterwards.  Hypotheses: not a duplicate; O3 (the
+   one as soon as the clock has passed arrival + EMPTY_ACK_DELAY — hence none afterwards.  (Round 6: the former hypothesis "no opportunity
+   recorded under this (peer, mid)" is now derived from reachability, C10_fresh_no_opportunity.)  Hypotheses: not a duplicate; O3 (the
    (peer, token) pair is not in use by an unacknowledged request, and no later CON request reuses it: [ev_live]); no other message
    from that peer carries this message ID and the application sends no ACK-typed requests ([ev_ok]). *)
 Theorem C10_con_request_acked_exactly_once : forall pre m0 t0 s os0 r m s1 o1 post s' os,
@@ -116,12 +139,11 @@ Theorem C10_con_request_acked_exactly_once : forall pre m0 t0 s os0 r m s1 o1 po
   mtype m = CON -> is_request (code m) = true ->
   aget zz_eqb (recent s) (rpeer r, mid m) = None ->
   aget pk_eqb (piggy s) (rpeer r, token m) = None ->
-  cnt (rpeer r) (mid m) (piggy s) = 0%nat ->
   dispatch_message s r m = (s1, o1) -> run s1 post = (s', os) ->
   Forall (ev_ok (rpeer r) (mid m)) post -> Forall (ev_live (rpeer r) (token m)) post ->
   let n := acks (rpeer r) (mid m) (o1 ++ outputs_of os) in
   (n <= 1)%nat /\ (now s + EMPTY_ACK_DELAY < now s' -> n = 1%nat).
-Proof. exact con_request_acked_exactly_once. Qed.
+Proof. exact con_request_acked_exactly_once'. Qed.
 Print Assumptions C10_con_request_acked_exactly_once.
 Example C10_acked_exactly_once_nonvacuous :   (* all hypotheses hold for a request arriving in the middle of other traffic *)
   let pre := [Request 1 None false; Recv (uni 1) (creq CON 3 [9] 1 None); Wait 7] in
@@ -143,7 +165,6 @@ Theorem C10_con_response_timing : forall pre m0 t0 s os0 r m s1 o1 es1 s2 os1,
   run (init m0 t0) pre = (s, os0) ->
   mtype m = CON -> path m = 0 -> 1 <= code m <= 7 ->
   aget zz_eqb (recent s) (rpeer r, mid m) = None -> aget pk_eqb (piggy s) (rpeer r, token m) = None ->
-  cnt (rpeer r) (mid m) (piggy s) = 0%nat ->
   dispatch_message s r m = (s1, o1) -> run s1 es1 = (s2, os1) ->
   let k0 := next_srv s in let d := now s + EMPTY_ACK_DELAY in
   Forall (strict r m k0) es1 -> Forall (ev_ok (rpeer r) (mid m)) es1 ->
@@ -157,7 +178,7 @@ Theorem C10_con_response_timing : forall pre m0 t0 s os0 r m s1 o1 es1 s2 os1,
        (no_response_of a = false /\ o3 = [Send (as_response_address r) (mk_wire a ACK (mid m))]) \/
        (no_response_of a = true /\ o3 = [Send (as_response_address r) (empty_msg ACK (mid m))])) /\
   ((1 <= acks (rpeer r) (mid m) (o1 ++ outputs_of os1))%nat -> d <= now s2).
-Proof. exact con_response_timing. Qed.
+Proof. exact con_response_timing'. Qed.
 Print Assumptions C10_con_response_timing.
 Example C10_response_timing_nonvacuous :
   let s := init 0 0 in let r := uni 0 in let m := creq CON 7 [1] 0 None in
@@ -176,7 +197,6 @@ Theorem C10_con_separate_response : forall pre m0 t0 s os0 r m s1 o1 es1 s2 os1,
   run (init m0 t0) pre = (s, os0) ->
   mtype m = CON -> path m = 0 -> 1 <= code m <= 7 ->
   aget zz_eqb (recent s) (rpeer r, mid m) = None -> aget pk_eqb (piggy s) (rpeer r, token m) = None ->
-  cnt (rpeer r) (mid m) (piggy s) = 0%nat ->
   dispatch_message s r m = (s1, o1) -> run s1 es1 = (s2, os1) ->
   let k0 := next_srv s in let d := now s + EMPTY_ACK_DELAY in
   Forall (strict r m k0) es1 -> Forall (ev_ok (rpeer r) (mid m)) es1 ->
@@ -190,7 +210,7 @@ Theorem C10_con_separate_response : forall pre m0 t0 s os0 r m s1 o1 es1 s2 os1,
      (no_response_of a = true /\ o3 = []) \/
      (no_response_of a = false /\
       (o3 = [Send (as_response_address r) (mk_wire a t (next_mid s2))] \/ (o3 = [] /\ t = CON /\ amem Z.eqb (backlogs s2) (rpeer r) = true)))).
-Proof. exact con_separate_response. Qed.
+Proof. exact con_separate_response'. Qed.
 Print Assumptions C10_con_separate_response.
 Example C10_separate_response_nonvacuous :   (* the second alternative is reached: timer fired at 100 000 us, other traffic in between *)
   let s := init 0 0 in let r := uni 0 in let m := creq CON 7 [1] 0 None in
@@ -224,6 +244,13 @@ Theorem C10_non_request_never_acked : forall s r m s1 o1 es s' os,
   acks (rpeer r) (mid m) (o1 ++ outputs_of os) = 0%nat.
 Proof. exact non_request_never_acked. Qed.
 Print Assumptions C10_non_request_never_acked.
+Theorem C10_non_request_never_acked_reachable : forall pre m0 t0 s os0 r m s1 o1 es s' os,
+  run (init m0 t0) pre = (s, os0) -> mtype m = NON -> is_request (code m) = true ->
+  aget zz_eqb (recent s) (rpeer r, mid m) = None ->
+  dispatch_message s r m = (s1, o1) -> run s1 es = (s', os) -> Forall (ev_ok (rpeer r) (mid m)) es ->
+  acks (rpeer r) (mid m) (o1 ++ outputs_of os) = 0%nat.
+Proof. exact non_request_never_acked'. Qed.
+Print Assumptions C10_non_request_never_acked_reachable.
 Example C10_non_request_never_acked_nonvacuous :
   let s := init 0 0 in let r := uni 0 in let m := creq NON 7 [1] 0 None in
   let es := [Wait 100000; Fire; Respond 0 69 None [5]; Recv (uni 0) (creq CON 8 [1] 1 None)] in
